@@ -187,5 +187,7 @@ def obligations(tier, seed):
             yield Ob('time_match', {'n': nn, 'steps': steps, 'lag': lag}, query_ms=60000, timeout_s=1500,
                      optional=(steps >= 3 and lag <= -2))
     yield Ob('time_match', {'n': 8, 'steps': 2, 'lag': 1, 'k': 3, 'master': 1}, query_ms=60000, timeout_s=900)
-    yield Ob('time_match', {'n': 8, 'steps': 2, 'lag': -1, 'k': 2, 'master': 1}, query_ms=60000, timeout_s=900)
+    yield Ob('time_match', {'n': 8, 'steps': 2, 'lag': 1, 'k': 2, 'master': 1}, query_ms=60000, timeout_s=900)
+    if not q:
+        yield Ob('time_match', {'n': 8, 'steps': 2, 'lag': -1, 'k': 2, 'master': 1}, query_ms=60000, timeout_s=900)
     yield Ob('time_match', {'n': 8, 'steps': 2, 'lag': 1, 'k': 4, 'master': 0}, query_ms=60000, timeout_s=900)
